@@ -33,7 +33,7 @@ def build_items(tier, seed, positions=False, cases=CASES):
         # the form-cover programs (at the end) are written with every choice of the optional words
         for rep in range(3 if k >= len(stmts) - oalcheck.NCOVER else 2):
             items.append({'body': o['body'], 'toks': o['toks'], 'seed': rnd.randint(0, 10 ** 9),
-                          'layout': ['mixed', 'dense', 'plain'][(k + rep) % 3], 'case': cases[(k + rep) % len(cases)],
+                          'layout': ['mixed', 'dense', 'plain', 'line'][(k + rep) % 4], 'case': cases[(k + rep) % len(cases)],
                           'keep': [None, True, False][(k + rep) % 3], 'positions': positions})
     return items, ntrees
 
